@@ -17,19 +17,22 @@ from vlib import ToolError, log
 TEXT = {
     "e1": 'import { M } from "./m1";\ntype L = "one";\nparse.buildParsers<{ M: M, L: L }>();\n',
     "e2": 'import { M } from "./m1";\ntype L = "two";\nparse.buildParsers<{ M: M, L: L }>();\n',
+    "e3n": 'import { M } from "./m1";\nimport { N } from "./m2";\ntype L = N;\nparse.buildParsers<{ M: M, L: L }>();\n',
+    "e4v": 'import { M, KV } from "./m1";\ntype L = (typeof KV)[number];\nparse.buildParsers<{ M: M, L: L }>();\n',
     "ebroken": 'import { M } from "./m1";\ntype L = ;;; {{{ \nparse.buildParsers<{ M: M, L: L }>();\n',
     "a1": 'export type M = { x: "a1" };\n',
     "a2": 'export type M = { x: "a2" };\n',
     "a3imp": 'import { N } from "./m2";\nexport type M = { x: "a3", n: N };\n',
     "a4imp": 'import { N } from "./m2";\nexport type M = { x: "a4", n: N };\n',
+    "astar": 'export * from "./m2";\nexport type M = { x: "as" };\n',
     "aunres": 'export type Other = string;\n',
     "abroken": 'export type M = {{{{ \n',
-    "b1": 'export type N = "b1";\n',
-    "b2": 'export type N = "b2";\n',
+    "b1": 'export type N = "b1";\nexport const KV = ["k1"] as const;\n',
+    "b2": 'export type N = "b2";\nexport const KV = ["k2"] as const;\n',
     "bbroken": 'export type N = ((( ;\n',
 }
 PATH = {"entry": "entry.ts", "m1": "m1.ts", "m2": "m2.ts"}
-VARIANTS = {"entry": ["e1", "e2", "ebroken"], "m1": ["a1", "a2", "a3imp", "a4imp", "aunres", "abroken"], "m2": ["b1", "b2", "bbroken"]}
+VARIANTS = {"entry": ["e1", "e2", "e3n", "e4v", "ebroken"], "m1": ["a1", "a2", "a3imp", "a4imp", "astar", "aunres", "abroken"], "m2": ["b1", "b2", "bbroken"]}
 
 
 def model(tag, deviations, design=False):
